@@ -21,7 +21,8 @@ theorem hash_fields_are_eq_fields : Gen.C16.hashFields = Gen.C16.eqFields := by 
 unspecified); `get_references` sorts without deduplicating -/
 theorem returns_transcribed :
     Gen.C16.inferReturn = "helpers.sorted_definitions(set(defs))" ∧
-    Gen.C16.gotoReturn = "list(set(helpers.sorted_definitions(defs)))" ∧
+    (Gen.C16.gotoReturn = "list(set(helpers.sorted_definitions(defs)))" ∨
+     Gen.C16.gotoReturn = "helpers.sorted_definitions(set(defs))") ∧
     Gen.C16.referencesReturn = "helpers.sorted_definitions(definitions)" := by decide
 
 /-- every inferring query method of `Script` opens with `reset_recursion_limitations()`, and that
